@@ -225,6 +225,7 @@ func main() {
 	tot := Result{Exhaustive: true, ViolCount: map[string]int64{}, ViolEx: map[string][]Example{}, Extra: map[string]int64{}, Bounds: map[string]string{}}
 	perPart := map[string]map[string]any{}
 	supp := map[string]int64{}
+	partSamples := map[string]int{}
 	var capped []string
 	for _, j := range jobs {
 		b, err := os.ReadFile(j.out)
@@ -256,11 +257,10 @@ func main() {
 			tot.Exhaustive = false
 			capped = append(capped, fmt.Sprintf("%s/%d: %s", j.part.Name, j.shard, r.Capped))
 		}
-		if len(tot.Samples) < 6 {
-			for _, s := range r.Samples {
-				if len(tot.Samples) < 6 {
-					tot.Samples = append(tot.Samples, s)
-				}
+		for _, s := range r.Samples {
+			if partSamples[j.part.Name] < 3 {
+				partSamples[j.part.Name]++
+				tot.Samples = append(tot.Samples, s)
 			}
 		}
 		for k, v := range r.ViolCount {
